@@ -112,23 +112,40 @@ fn case_qos(max_samples: Option<i32>) -> QosPolicies {
 
 fn new_case_rig(world: &mut World, matched: &[u8], max_samples: Option<i32>, seed: u64) -> CaseRig {
   let qos = case_qos(max_samples);
-  world.counter += 1;
-  let topic_name = format!("c01_{}_{}", seed, world.counter);
-  let topic = world
-    .dp
-    .create_topic(topic_name.clone(), "c01_blob".to_string(), &qos, TopicKind::WithKey)
-    .unwrap();
-  let topic_cache: Arc<Mutex<TopicCache>> =
-    world
+  // Subscriber::create_datareader announces the reader to the discovery thread with try_send on a
+  // bounded channel (64 commands) and returns Err("... Error: Full") when that thread lags behind
+  // (seen under heavy machine load: one reader per case, several hundred cases per second).  That is
+  // back-pressure of the API, not a failure of the code under test: wait and try again on a fresh
+  // topic (the reader of the failed attempt stays behind on its own, never used topic).
+  let mut attempt = 0;
+  let (topic, topic_name, topic_cache, dr) = loop {
+    world.counter += 1;
+    let topic_name = format!("c01_{}_{}", seed, world.counter);
+    let topic = world
       .dp
-      .dds_cache()
-      .write()
-      .unwrap()
-      .add_new_topic(topic.name(), topic.get_type(), &topic.qos());
-  let dr = world
-    .sub
-    .create_datareader::<Blob, CDRDeserializerAdapter<Blob>>(&topic, Some(qos.clone()))
-    .unwrap();
+      .create_topic(topic_name.clone(), "c01_blob".to_string(), &qos, TopicKind::WithKey)
+      .unwrap();
+    let topic_cache: Arc<Mutex<TopicCache>> =
+      world
+        .dp
+        .dds_cache()
+        .write()
+        .unwrap()
+        .add_new_topic(topic.name(), topic.get_type(), &topic.qos());
+    match world
+      .sub
+      .create_datareader::<Blob, CDRDeserializerAdapter<Blob>>(&topic, Some(qos.clone()))
+    {
+      Ok(dr) => break (topic, topic_name, topic_cache, dr),
+      Err(e) => {
+        attempt += 1;
+        if attempt > 200 {
+          panic!("create_datareader keeps failing: {:?}", e);
+        }
+        std::thread::sleep(std::time::Duration::from_millis(50));
+      }
+    }
+  };
   let rig = Rig::new(matched, &qos, &topic_name, topic_cache.clone());
   let max_keep = topic_cache.lock().unwrap().verif_keep_limits().1;
   CaseRig { rig, dr, _topic: topic, max_keep }
@@ -221,28 +238,48 @@ fn run_generated(world: &mut World, mut rng: Rng, profile: u8, nops: usize, seed
   let matched = gen.matched();
   let mut ops = Vec::new();
   let mut obs = Vec::new();
-  let mut max_keep = 0;
-  let r = catch_unwind(AssertUnwindSafe(|| {
-    let mut cr = new_case_rig(world, &matched, max_samples, seed);
-    max_keep = cr.max_keep;
-    let dds_cache = world.dp.dds_cache();
-    let _no_timer_gc = dds_cache.read().unwrap();
-    for i in 0..nops {
-      let a = if rng.below(take_every as u64 + 1) == 0 || i + 1 == nops {
-        AOp::Take(*rng.pick(&[0usize, 1, 1, 2, 3, 5, 1000, 1000, 1000]))
-      } else {
-        let bases: Vec<(u8, i64)> = gen.ws.iter().map(|w| (w.id, cr.rig.ack_base(w.id))).collect();
-        AOp::Sub(
-          gen
-            .next(&|id| bases.iter().find(|(i, _)| *i == id).map(|p| p.1).unwrap_or(1))
-            .normalized(),
-        )
+  // only the code under test runs inside catch_unwind: a panic of the generator must not be
+  // reported as a panic of the implementation
+  let mut cr = match catch_unwind(AssertUnwindSafe(|| new_case_rig(world, &matched, max_samples, seed))) {
+    Ok(cr) => cr,
+    Err(_) => return CaseRun { matched, max_keep: 0, ops, obs, panicked: true },
+  };
+  let max_keep = cr.max_keep;
+  let dds_cache = world.dp.dds_cache();
+  let _no_timer_gc = dds_cache.read().unwrap();
+  let mut panicked = false;
+  for i in 0..nops {
+    let a = if rng.below(take_every as u64 + 1) == 0 || i + 1 == nops {
+      AOp::Take(*rng.pick(&[0usize, 1, 1, 2, 3, 5, 1000, 1000, 1000]))
+    } else {
+      let ids: Vec<u8> = gen.ws.iter().map(|w| w.id).collect();
+      let bases = match catch_unwind(AssertUnwindSafe(|| {
+        ids.iter().map(|id| (*id, cr.rig.ack_base(*id))).collect::<Vec<(u8, i64)>>()
+      })) {
+        Ok(b) => b,
+        Err(_) => {
+          panicked = true;
+          break;
+        }
       };
-      obs.push(cr.step(&a));
-      ops.push(a);
+      AOp::Sub(
+        gen
+          .next(&|id| bases.iter().find(|(i, _)| *i == id).map(|p| p.1).unwrap_or(1))
+          .normalized(),
+      )
+    };
+    match catch_unwind(AssertUnwindSafe(|| cr.step(&a))) {
+      Ok(o) => {
+        obs.push(o);
+        ops.push(a);
+      }
+      Err(_) => {
+        panicked = true;
+        break;
+      }
     }
-  }));
-  CaseRun { matched, max_keep, ops, obs, panicked: r.is_err() }
+  }
+  CaseRun { matched, max_keep, ops, obs, panicked }
 }
 
 fn coq_case(cr: &CaseRun) -> String {
@@ -276,10 +313,31 @@ fn tags_of(cr: &CaseRun, kind: &str) -> (Vec<String>, bool) {
   let mut prev_len = 0;
   let mut out_of_order = false;
   let mut seen_max: std::collections::BTreeMap<u8, i64> = Default::default();
+  let mut live_marker: std::collections::BTreeMap<u8, i64> = Default::default();
+  let mut far_parts: Vec<(u8, i64, i64)> = Vec::new();
   for (a, o) in cr.ops.iter().zip(cr.obs.iter()) {
     match (a, o) {
-      (AOp::Sub(op), AObs::Sub { adds: ad, cache_len, .. }) => {
+      (AOp::Sub(op), AObs::Sub { adds: ad, cache_len, marker }) => {
         tags.push(format!("op:{}", op.kind()));
+        // GAP ranges above the hand-over bound (= ack base) of their time reaching beyond its
+        // 256-window: only the window is recorded (repo fix c71c7f1)
+        let matched = cr.matched.contains(&op.writer());
+        let before = *live_marker.get(&op.writer()).unwrap_or(&1);
+        if let Op::Gap { w, start, base, .. } = op {
+          if matched && *start >= 1 && *start <= c03::MAX_SN && *base <= c03::MAX_SN && *base > *start {
+            if *start > before && *base > before + 256 {
+              tags.push("branch:gap_cut".to_string());
+              far_parts.push((*w, (*start).max(before + 256), *base));
+            } else if *start <= before
+              && far_parts.iter().any(|(fw, lo, hi)| fw == w && *lo < *base && before < *hi)
+            {
+              tags.push("branch:gap_renewed_after_cut".to_string());
+            }
+          }
+        }
+        if matched {
+          live_marker.insert(op.writer(), *marker);
+        }
         adds += ad.len();
         for (w, sn) in ad {
           let m = seen_max.entry(*w).or_insert(0);
@@ -296,6 +354,9 @@ fn tags_of(cr: &CaseRun, kind: &str) -> (Vec<String>, bool) {
       (AOp::Take(k), AObs::Take(l)) => {
         tags.push("op:take".to_string());
         handed += l.len();
+        if l.iter().any(|(w, sn, _, _)| far_parts.iter().any(|(fw, _, hi)| fw == w && sn >= hi)) {
+          tags.push("branch:handed_beyond_cut_gap".to_string());
+        }
         if l.len() == *k && *k > 0 {
           tags.push("branch:take_truncated".to_string());
         }
@@ -369,6 +430,15 @@ fn corpus() -> Vec<(Vec<u8>, Option<i32>, Vec<AOp>)> {
   c.push((vec![1], None, vec![d(9, 1, None), T, d(1, 4, None), d(1, 6, None), hb(1, 5, 6, 1), T, hb(1, 7, 6, 2), T]));
   // 9: sample received, then declared irrelevant before it could be handed over?  (it stays available)
   c.push((vec![1], None, vec![d(1, 2, None), gap(1, 1, 4, 0, &[]), T, d(1, 3, None), T]));
+  // --- GAP ranges above the ack base are recorded only within 256 numbers from it (repo fix c71c7f1)
+  // 10: GAP [5,1000) at base 1; 1..4 arrive and are handed over; sample 1000 waits until the writer
+  //     has repeated the GAP from the reader's base 257
+  c.push((vec![1], None, vec![gap(1, 5, 1000, 0, &[]), d(1, 1, None), d(1, 2, None), d(1, 3, None), d(1, 4, None), T, d(1, 1000, None), T, hb(1, 1, 1200, 1), T, gap(1, 257, 1000, 0, &[]), T, hb(1, 1, 1200, 2), d(1, 1001, None), T]));
+  // 11: a sample inside the far part (300) is received first; it is handed over when the renewed
+  //     GAP [257,300) arrives, the rest of the range follows piecewise
+  c.push((vec![1], None, vec![d(1, 300, None), gap(1, 5, 1000, 0, &[]), d(1, 1, None), d(1, 2, None), d(1, 3, None), d(1, 4, None), T, gap(1, 257, 300, 0, &[]), T, gap(1, 302, 1000, 0, &[]), d(1, 301, None), T, d(1, 1000, None), T, gap(1, 558, 1000, 0, &[]), T]));
+  // 12: two writers, the far GAP of one does not disturb the other; small topic cache
+  c.push((vec![1, 2], Some(8), vec![gap(1, 3, 600, 0, &[]), d(2, 1, None), d(1, 1, None), d(1, 2, None), d(1, 600, None), d(2, 2, None), AOp::Take(2), gap(1, 259, 600, 0, &[]), T, gap(1, 258, 600, 0, &[]), T, gap(1, 1, 601, 0, &[]), T]));
   c
 }
 
